@@ -67,7 +67,11 @@ EXPLANATION = (
     'complexity exactly the target and is SPD (gradation_at_complexity_final, gradationAtComplexity_final, '
     'gradation_at_complexity_spd, gradation_at_complexity_div_zero). The oracle of the new streams states directly: '
     'every tensor after every sweep finite SPD, dominating its input (exact rational minors of M\' - (1-1e-9)M), '
-    'embedding kept, |C(out)-target| <= 1e-10 target.')
+    'embedding kept, |C(out)-target| <= 1e-10 target (for output tensors of conditioning up to 1e4). '
+    'Also proved: the Lp exponent is -1/(2p+dim) and sends the coded determinant to det^(2p/(2p+dim)) in 3-D and, with '
+    'the embedding, in 2-D (localScale_exponent_dim, localScale_det3, localScale_det2); floor + Lp normalisation give '
+    'SPD for any Hessian (lp_front_spd); the stages of ref_metric_lp after the reconstruction return complexity exactly '
+    'the target and, in 2-D, embedded tensors (lpChain_split, lpChain_complexity).')
 
 ASSUMPTIONS = [
     'theorems hold in exact real arithmetic about the model; IEEE rounding is modelled (Float instance, bit-compared '
@@ -87,8 +91,10 @@ ASSUMPTIONS = [
     'Hessian reconstruction (ref_recon_hessian: L2 projection / k-exact) is outside this property (C19); the abs-value '
     'and floor theorems need only orthonormal eigenvectors from ref_matrix_diag_m (proved), not an exact decomposition; '
     'a diag_m failure status is returned as is',
-    'SPD after limit_aspect_ratio is proved for the 3-D node kernel given a positive largest eigenvalue; the 2-D kernel '
-    '(descending_eig_twod, embedding) is tied and oracled only',
+    'SPD after limit_aspect_ratio is proved for the 3-D node kernel given a positive largest eigenvalue, and for the 2-D '
+    'kernel (descending_eig_twod, twod_m) given a positive larger in-plane eigenvalue and a positive out-of-plane '
+    'eigenvalue of the returned frame (limitAspectRatio2_spd_embedded); the embedding of the 2-D limiter output is '
+    'unconditional (limitAspectRatio2_field_embedded)',
     'parallel: the model is one rank\'s sum with ref_mpi_allsum as the identity; complexity_rank_sum covers the sum over '
     'ranks; ghost exchange (ref_node_ghost_dbl after every sweep) and the np > 1 run are covered end to end by '
     'cli_multiscale_mpi only: the gradation model is the one-rank sweep (no 2-rank world was modelled)',
